@@ -201,7 +201,7 @@ func genHist(rt *rapid.T) genHistory {
 			h.Streams[s] = append(h.Streams[s], genOp(rt, streamIDs[s], i))
 		}
 	}
-	h.R1Frac = rapid.IntRange(60, 97).Draw(rt, "r1frac")
+	h.R1Frac = rapid.IntRange(3, 97).Draw(rt, "r1frac")
 	h.R1Us = rapid.IntRange(0, 1500).Draw(rt, "r1us")
 	h.Rnd = rapid.SliceOfN(rapid.Uint32(), 512, 512).Draw(rt, "rnd")
 	return h
@@ -403,6 +403,9 @@ func runCase(c *Case, opt runOpts) (out outcome) {
 				n = 60000
 			}
 			out.logTail = nodeLogTail(d, n)
+			if strings.HasPrefix(out.violation, "needs manual repair") {
+				out.logTail = "---- read-only look at the node's raft directories ----\n" + diagnose(d) + out.logTail
+			}
 		}
 		d.remove()
 	}()
@@ -851,6 +854,15 @@ func uniq(s []string) []string {
 	return out
 }
 
+func flagInt(name string, def int) int {
+	if f := flag.Lookup(name); f != nil {
+		if v, err := strconv.Atoi(f.Value.String()); err == nil && v > 0 {
+			return v
+		}
+	}
+	return def
+}
+
 func envInt(name string, def int) int {
 	if v, err := strconv.Atoi(os.Getenv(name)); err == nil {
 		return v
@@ -875,13 +887,17 @@ func TestCrashEnumeration(t *testing.T) {
 	active := known.Active(findingAckBeforeWAL)
 	opt := defaultOpts()
 
+	// rapid draws the histories: one Example per case, seeded from -rapid.seed (set per shard by
+	// the driver). Nothing is executed inside rapid: the process-level runs are not shrinkable,
+	// the reproducible unit is the saved (history, crash plan).
+	seed, checks := flagInt("rapid.seed", 1), flagInt("rapid.checks", 1)
+	gen := rapid.Custom(genHist)
 	var hists []genHistory
-	rapid.Check(t, func(rt *rapid.T) { hists = append(hists, genHist(rt)) })
-	if t.Failed() {
-		return
+	for i := 0; i < checks; i++ {
+		hists = append(hists, gen.Example(seed*1009+i))
 	}
 	var tl tally
-	unreached := map[string]bool{}
+	reached := map[string]bool{}
 	for caseNo, h := range hists {
 		h := h
 		cfg := defaultCfg(engine)
@@ -898,9 +914,9 @@ func TestCrashEnumeration(t *testing.T) {
 		rec.Count("histories", 1)
 		for _, p := range allPoints {
 			if counts[p] == 0 {
-				unreached[p] = true
 				rec.Count("history_does_not_reach:"+p, 1)
 			} else {
+				reached[p] = true
 				rec.Count("history_reaches:"+p, 1)
 			}
 		}
@@ -924,11 +940,12 @@ func TestCrashEnumeration(t *testing.T) {
 		}
 	}
 	var ur []string
-	for p := range unreached {
-		ur = append(ur, p)
+	for _, p := range allPoints {
+		if !reached[p] {
+			ur = append(ur, p)
+		}
 	}
-	sort.Strings(ur)
-	fmt.Printf("c06 %s: %d cases, %d inconclusive; points never reached by a single-replica history: %v\n", engine, tl.cases, tl.inconclusive, ur)
+	fmt.Printf("c06 %s: %d cases, %d inconclusive; points reached by none of this shard's histories: %v\n", engine, tl.cases, tl.inconclusive, ur)
 	if tl.inconclusive > 2 && tl.inconclusive*4 > tl.cases {
 		fmt.Printf("HARNESS: %d of %d cases inconclusive\n", tl.inconclusive, tl.cases)
 		stats.FlushAll()
